@@ -367,55 +367,13 @@ def rule_settings(P) -> RuleResult:
             fields[s.target.id] = unparse(s.annotation)
     if len(fields) < 8:
         raise AnalysisError('Settings dataclass fields not found')
-    # (a) every field has a parser that rejects invalid input where invalid input exists
-    for name, typ in fields.items():
-        parser = st.methods.get(f'_parse_{name}') or st.methods.get(f'_parse_{typ}')
-        if typ == 'bool' or name == 'format':
-            if parser is None or not any(isinstance(n, ast.Raise) and 'ValueError' in unparse(n) for n in ast.walk(parser.node)):
-                res.fail(f'{st.fq}.{name}', f'settings:parser:{name}', f'setting `{name}` ({typ}) has no parser that rejects invalid values with ValueError')
-                continue
-        res.ok({'setting': name, 'type': typ, 'parser': parser.name if parser else typ})
-    # (a2) a parser returns a value of the setting's type: setstr picks the parser by the type of the *current* value,
-    #      so a parser that changes the type breaks every later .set of that variable (and the echo)
-    from ..absint import Interp, Frame, A, TOP, atoms_of, join_all, NoneT, Struct
-    reg_ = registry.get(P)
-    it_ = Interp(P, reg_)
-    for pname, typ in (('_parse_bool', bool), ('_parse_format', str)):
-        pf = st.methods.get(pname)
-        if pf is None:
-            continue
-        for inp in (A(str), A(typ)):
-            env = it_.new_env(pf)
-            env['self'] = TOP
-            env[pf.params[1]] = inp
-            frame = it_.run_function(pf, env)
-            r = join_all([v for v, _ in frame.returns]) if frame.returns else A(NoneT)
-            a = atoms_of(r)
-            if a is TOP:
-                res.unresolved += 1
-                continue
-            bad = sorted(t.__name__ for t in a if t is not typ)
-            if bad:
-                res.fail(pf.fq, f'settings:parser-type:{pname}', f'{pname} must return a {typ.__name__}; for a {sorted(t.__name__ for t in inp)[0]} '
-                         f'input it can return {", ".join(bad)}: the setting changes type, is echoed differently and can no longer be '
-                         f'set with the usual spellings', loc(pf))
-                break
-        else:
-            res.ok({'parser': pname, 'returns': typ.__name__})
-    # (b) setstr: parse before the single store
-    ss = st.methods.get('setstr')
-    if ss is None:
-        raise AnalysisError('anchor vanished: Settings.setstr')
-    stores = [n for n in ast.walk(ss.node) if isinstance(n, ast.Call) and unparse(n.func) == 'setattr']
-    astores = [n for n in ast.walk(ss.node) if isinstance(n, ast.Assign) and isinstance(n.targets[0], ast.Attribute)]
-    if len(stores) != 1 or astores or 'parse(value)' not in unparse(stores[0]):
-        res.fail(ss.fq, 'settings:atomic', 'setstr must evaluate the parse and then store once, so that an invalid value changes nothing', loc(ss))
-    else:
-        look = unparse(ss.node)
-        if "f'_parse_{name}'" not in look or '_parse_{vtype.__name__}' not in look:
-            res.fail(ss.fq, 'settings:lookup', 'the parser is looked up by setting name, then by type, then the type itself', loc(ss))
-        else:
-            res.ok({'method': ss.fq, 'order': 'parse, then one setattr'})
+    # (a) parsers, (b) setstr, (c) echo: on terms
+    from . import sx_shell
+    if 'format' in fields and '_parse_format' not in st.methods:
+        res.fail(f'{st.fq}.format', 'settings:parser:format', 'setting `format` has no parser that rejects invalid values with ValueError')
+    sx_shell.bool_parser_cases(P, res)
+    sx_shell.setstr_cases(P, res)
+    sx_shell.getstr_cases(P, res)
     # (d) do_set validates the name against the fields before reflecting on it
     ds = sh.classes['DispatchingShell'].methods.get('do_set') if 'DispatchingShell' in sh.classes else None
     if ds is None:
